@@ -56,7 +56,12 @@ Sensitivity (quick tier, seed 1, scratch copy of /repo/tornado, one mutant at a 
   M6 get(): Connection check by substring ("upgradex" passes)                  -> C17.invalid_upgrade_completed (connection)
   M7 check_origin: ports ignored on both sides                                 -> C17.invalid_upgrade_completed (origin)
   M8 _accept_connection: first offered subprotocol echoed when handler chose none -> C17.subprotocol_echo_unselected
-Added after independent mutation testing found a gap:
+Added after independent mutation testing found gaps:
+  M10 client headers_received: selected subprotocol checked by SUBSTRING of the raw request header instead of list
+     membership -> C17.client_accepted_bad_response (subprotocol_not_offered; offer ["chat"], selection "at").  The scripted
+     server now also selects values derived from the offer that are not offered names (tail/head/middle fragments such as
+     superchat->chat, v10.proto->v1, the comma joins of the list, upper-case, extended names), label
+     `client_subprotocol_lookalike_not_offered`; part `client_subprotocol_grid` enumerates 6 offers x 18 selections.
   M9 get(): Connection tokenised with `.lower().split(", ")` instead of split(",") + strip  -> C17.valid_upgrade_not_completed
      ("keep-alive,Upgrade"; also caught by the deterministic part `connection_grid`).  The Connection factor now
      contains the valid list spellings of RFC 9110 5.6.1 / 5.3 as must-accept values (no space, extra spaces, HTAB, either
@@ -524,12 +529,43 @@ client_case_s = st.fixed_dictionaries({
     "connection": canon_or("Upgrade", ["upgrade", None, "close", "keep-alive"], p=6),
     "ext": st.sampled_from(CLIENT_EXT),
     "compression": st.sampled_from([None, {}, {"compression_level": 3}]),
-    "offer_protocols": st.sampled_from([None, None, ["chat"], ["chat", "superchat"]]),
-    "protocol": st.sampled_from([None, None, None, "chat", "superchat", "other", "CHAT"]),
+    "offer_protocols": st.sampled_from([None, None, ["chat"], ["chat", "superchat"], ["superchat"], ["v10.proto"], ["superchat", "v10.proto"]]),
+    # the server's selection: nothing, a literal, or something *derived from the offer* that is not an offered
+    # name (substring, fragment, join of the list, case variant, extension) -- all of those must be refused
+    "protocol": st.sampled_from([None, None, None, None, "chat", "superchat", "v10.proto", "other", "CHAT", "v1", "chat, v1",
+                                 ("derived", "first"), ("derived", "last"), ("derived", "tail"), ("derived", "head"), ("derived", "middle"),
+                                 ("derived", "join_comma"), ("derived", "join_comma_space"), ("derived", "upper"), ("derived", "extended")]),
     "callback_mode": st.booleans(),
     "segs": st.lists(st.integers(1, 80), max_size=5),
     "seed": st.binary(min_size=1, max_size=4),
 })
+
+
+def selected_protocol(spec, offer):
+    """The Sec-WebSocket-Protocol value the scripted server sends."""
+    if spec is None or isinstance(spec, str):
+        return spec
+    names = list(offer) if offer else ["chat"]
+    kind = spec[1]
+    if kind == "first":
+        return names[0]
+    if kind == "last":
+        return names[-1]
+    if kind == "tail":
+        return names[0][len(names[0]) // 2:]          # "superchat" -> "chat"
+    if kind == "head":
+        return names[-1][:2]                          # "v10.proto" -> "v1"
+    if kind == "middle":
+        return names[0][1:-1]
+    if kind == "join_comma":
+        return ",".join(names) if len(names) > 1 else names[0] + "," + names[0]
+    if kind == "join_comma_space":
+        return ", ".join(names) if len(names) > 1 else names[0] + ", " + names[0]
+    if kind == "upper":
+        return names[0].upper()
+    if kind == "extended":
+        return names[0] + "2"
+    raise AssertionError(kind)
 
 
 def accept_variant(kind, key):
@@ -563,6 +599,7 @@ def accept_variant(kind, key):
 def run_client_case(ctx, case):
     labels = set()
     out = {}
+    proto = selected_protocol(case["protocol"], case["offer_protocols"])
 
     async def scenario():
         kw = {}
@@ -583,7 +620,7 @@ def run_client_case(ctx, case):
         extra = []
         if not case["status"].startswith("101"):
             extra.append("Content-Length: 0")
-        resp = srv.response(ext=case["ext"][1] if case["ext"] else None, accept=accept, protocol=case["protocol"],
+        resp = srv.response(ext=case["ext"][1] if case["ext"] else None, accept=accept, protocol=proto,
                             status=case["status"], upgrade=case["upgrade"], connection=case["connection"], extra=extra)
         out["response"] = resp
         cl.stream.feed(resp, H.segments(len(resp), case["segs"], cap=len(case["segs"]), bulk=1 << 20))
@@ -667,8 +704,10 @@ def run_client_case(ctx, case):
             reasons_either.append("ext_either")
         else:
             labels.add("client_ext_ok")
-    if case["protocol"] is not None:
-        if case["offer_protocols"] is None or case["protocol"] not in case["offer_protocols"]:
+    if proto is not None:
+        if case["offer_protocols"] is None or proto not in case["offer_protocols"]:
+            if case["offer_protocols"] and any(proto in o or o in proto or proto.lower() == o.lower() for o in case["offer_protocols"]):
+                labels.add("client_subprotocol_lookalike_not_offered")
             reasons_bad.append("subprotocol_not_offered")
             labels.add("client_subprotocol_not_offered")
         else:
@@ -688,9 +727,9 @@ def run_client_case(ctx, case):
     if not out["ok"] and not reasons_bad and not reasons_either:
         ctx.fail("C17.client_rejected_valid_response", detail)
     if out["ok"]:
-        if out.get("selected") != case["protocol"]:
+        if out.get("selected") != proto:
             ctx.fail("C17.client_selected_subprotocol", dict(detail, selected=out.get("selected")))
-    ctx.note(case, labels, bool(reasons_bad or reasons_either or case["ext"] or case["protocol"]))
+    ctx.note(case, labels, bool(reasons_bad or reasons_either or case["ext"] or proto))
 
 
 def connection_grid():
@@ -705,11 +744,26 @@ def connection_grid():
                 yield dict(base, connection=co, lower_names=lower, origin=origin)
 
 
-PARTS = {"server": run_server_case, "client": run_client_case, "connection_grid": run_server_case}
+SUBPROTOCOL_OFFERS = [None, ["chat"], ["chat", "superchat"], ["superchat"], ["v10.proto"], ["superchat", "v10.proto"]]
+SUBPROTOCOL_SELECTIONS = [None, "chat", "superchat", "v10.proto", "other", "CHAT", "v1", "chat, v1", "superchat,v10.proto"] + [
+    ("derived", k) for k in ("first", "last", "tail", "head", "middle", "join_comma", "join_comma_space", "upper", "extended")]
+
+
+def client_subprotocol_grid():
+    """Deterministic: every offer x every selection with an otherwise canonical 101 response."""
+    for offer in SUBPROTOCOL_OFFERS:
+        for sel in SUBPROTOCOL_SELECTIONS:
+            yield {"status": "101 Switching Protocols", "accept": "right", "upgrade": "websocket", "connection": "Upgrade", "ext": None,
+                   "compression": None, "offer_protocols": offer, "protocol": sel, "callback_mode": True, "segs": [], "seed": b"\x00"}
+
+
+PARTS = {"server": run_server_case, "client": run_client_case, "connection_grid": run_server_case,
+         "client_subprotocol_grid": run_client_case}
 
 
 def main(ctx):
     ctx.run_replays(PARTS)
     ctx.enumerate(connection_grid(), run_server_case, name="connection_grid")
+    ctx.enumerate(client_subprotocol_grid(), run_client_case, name="client_subprotocol_grid")
     ctx.explore(server_case_s, run_server_case, ctx.n(3000, 48000), name="server")
     ctx.explore(client_case_s, run_client_case, ctx.n(1200, 16000), name="client")
